@@ -8,7 +8,7 @@ from checks import appcommon
 # per property: directed scenarios, random profiles (quick / thorough), outcome kinds that must be
 # exercised on the unchanged tree (vacuity guard), bounded model config(s)
 TABLE = {
-    "C02": dict(evm=True, directed=["evm_value", "evm_selfdestruct", "evm_nested_revert", "evm_mixed", "recreate_in_block", "genesis_twins_unbond", "twin_jail", "huge_stake", "same_block_withdraw",
+    "C02": dict(evm=True, directed=["wrap_amount", "checktx_not_delivered", "evm_value", "evm_selfdestruct", "evm_nested_revert", "evm_mixed", "recreate_in_block", "genesis_twins_unbond", "twin_jail", "huge_stake", "same_block_withdraw",
                           "slash_then_unstake", "no_proposer_block", "many_unbonding", "forced_unbond"],
                 quick=[dict(n=6, blocks=25), dict(n=4, blocks=20, boundary=True)],
                 thorough=[dict(n=40, blocks=40), dict(n=40, blocks=40, seed_off=50), dict(n=30, blocks=30, boundary=True),
@@ -18,7 +18,7 @@ TABLE = {
                 quick=[dict(n=8, blocks=20, maxtx=7)],
                 thorough=[dict(n=50, blocks=40, maxtx=8), dict(n=50, blocks=40, maxtx=8, seed_off=31)],
                 need=[("transfer", True), ("transfer", False), ("staking", True)]),
-    "C05": dict(evm=True, directed=["evm_fail", "evm_nested_revert", "fee_edges", "nonce_replay", "vote_window_edges", "forced_unbond", "huge_stake", "same_block_withdraw",
+    "C05": dict(evm=True, directed=["wrap_amount", "evm_fail", "evm_nested_revert", "fee_edges", "nonce_replay", "vote_window_edges", "forced_unbond", "huge_stake", "same_block_withdraw",
                           "setdoc_and_accounts", "price_change"],
                 quick=[dict(n=8, blocks=20, maxtx=7), dict(n=3, blocks=15, boundary=True)],
                 thorough=[dict(n=50, blocks=40, maxtx=8), dict(n=40, blocks=40, maxtx=8, seed_off=11), dict(n=30, blocks=30, boundary=True)],
@@ -27,11 +27,11 @@ TABLE = {
                 quick=[dict(n=8, blocks=30)],
                 thorough=[dict(n=60, blocks=50), dict(n=60, blocks=50, seed_off=13)],
                 need=[("staking", True), ("unstaking", True), ("absent", True)]),
-    "C11": dict(directed=["self_below_min", "recreate_in_block", "forced_unbond", "slash_then_unstake", "genesis_twins_unbond", "validator_churn", "many_unbonding"],
+    "C11": dict(directed=["checktx_not_delivered", "self_below_min", "recreate_in_block", "forced_unbond", "slash_then_unstake", "genesis_twins_unbond", "validator_churn", "many_unbonding"],
                 quick=[dict(n=8, blocks=25)],
                 thorough=[dict(n=60, blocks=50), dict(n=60, blocks=50, seed_off=17)],
                 need=[("staking", True), ("unstaking", True), ("evidence", True)]),
-    "C12": dict(directed=["genesis_twins_unbond", "twin_jail", "forced_unbond", "many_unbonding", "slash_then_unstake"],
+    "C12": dict(directed=["checktx_not_delivered", "genesis_twins_unbond", "twin_jail", "forced_unbond", "many_unbonding", "slash_then_unstake"],
                 quick=[dict(n=8, blocks=30)],
                 thorough=[dict(n=60, blocks=50), dict(n=60, blocks=50, seed_off=19)],
                 need=[("unstaking", True), ("unstaking", False)]),
